@@ -3,6 +3,7 @@
 \* Go harness walks (direction A).
 CONSTANTS
     Addrs = {"a1", "a2"}
+    Claims = {"none", "peer", "trusted", "untrusted"}
     MaxAttemptsSet = {1, 2, 3}
     BlockDurSet = {1, 2, 3}
     Window = 2
@@ -10,4 +11,4 @@ CONSTANTS
 SPECIFICATION Spec
 VIEW View
 INVARIANTS TypeOK NoBlockBeforeLimit LimitIsSharp
-PROPERTIES BlockedNeverEvaluates BlockLastsExactly SuccessClears OthersUntouched
+PROPERTIES BlockedNeverEvaluates BlockLastsExactly SuccessClears OthersUntouched ClaimIsIgnored
